@@ -250,7 +250,7 @@ func runTamper(t *rapid.T, test string, in inst, what string) {
 	}
 	var canonM []byte
 	var derr error
-	vlib.NoPanic(t, "typed decoding of the mutated proof", func() { canonM, derr = in.Canon(cn, m.bytes) })
+	decodePanic, decodeStack := catchPanic(func() { canonM, derr = in.Canon(cn, m.bytes) })
 	verdict := "reject:value-changed"
 	switch {
 	case derr != nil:
@@ -269,7 +269,12 @@ func runTamper(t *rapid.T, test string, in inst, what string) {
 		return
 	}
 	var verr error
-	panicMsg, stack := catchPanic(func() { verr = in.Verify(cn, ctxV, seed+3, "", false, m.bytes, false) })
+	panicMsg, stack := decodePanic, decodeStack
+	if decodePanic != "" {
+		panicMsg = "typed decoding: " + decodePanic // the verifier decodes in the same way: not run again
+	} else {
+		panicMsg, stack = catchPanic(func() { verr = in.Verify(cn, ctxV, seed+3, "", false, m.bytes, false) })
+	}
 	if se, ok := verr.(*stepErr); ok && panicMsg == "" {
 		t.Fatalf("harness: %v", se)
 	}
